@@ -15,6 +15,7 @@ package entity
 
 //@ func CombineIds
 //@   props C13
+//@   purefn
 //@   nopanic
 //@   requires len(primary) >= 50 && len(secondary) >= 14
 //@   ensures [len]    len(result) == 64
@@ -105,3 +106,7 @@ package entity
 //@   modifies nothing
 //@ func Interface.Validate
 //@   modifies nothing
+
+// The id of an entity value is a deterministic attribute of it.
+//@ func Interface.Id
+//@   purefn
